@@ -202,6 +202,14 @@ func relayOps(d *simnet.Dir, ops []simrt.Action, faults map[string]int) func() (
 func execute(t *testing.T, prop string, c simrt.Case) (out simrt.Outcome) {
 	out = simrt.Outcome{Faults: map[string]int{}, Probes: map[string]int{}, Evals: map[string]int{}}
 	var lg simrt.Log
+	lg.Keep = os.Getenv("VERIF_DUMPLOG") != ""
+	defer func() {
+		if lg.Keep {
+			for _, l := range lg.Text {
+				fmt.Println("LOG", l)
+			}
+		}
+	}()
 	rp := simrt.Bubble(t, func() { run(c, &out, &lg) })
 	if rp != nil {
 		out.Violations = append(out.Violations, simrt.Violation{Property: "C20", Oracle: "harness-panic", Key: "root", Msg: fmt.Sprint(rp)})
@@ -523,7 +531,13 @@ func (w *world) runMConn(acts []simrt.Action) {
 				complete = false
 			}
 		}
-		w.lg.Add("side %d received %d complete=%v errors=%d", side, len(recvd[side]), complete, len(errs[side]))
+		if tampered || oversizeSent[0] || oversizeSent[1] {
+			// how much got through before the connection was torn down depends on the runtime's choice among
+			// ready select cases inside MConnection; only the verdicts are schedule-independent
+			w.lg.Add("side %d torn-down run: every received message is a sent one, in order", side)
+		} else {
+			w.lg.Add("side %d received %d complete=%v errors=%d", side, len(recvd[side]), complete, len(errs[side]))
+		}
 		if os.Getenv("VERIF_DEBUG_SEED") != "" {
 			fmt.Printf("side %d received %d complete=%v errors=%v tampered=%v oversize=%v\n", side, len(recvd[side]), complete, errs[side], tampered, oversizeSent)
 		}
